@@ -137,6 +137,94 @@ def ser_utils(u) -> str:
             + " ; xl " + mat(xl) + " ; yl " + mat(yl) + " ; wl " + mat(wl) + " ; hl " + mat(hl))
 
 
+# ----------------------------------------------------------------------------- declarations, caps, flags (C09 round e)
+def _num(v, none=float("nan")) -> float:
+    """plain number of a GEKKO attribute (int / float / GK_Value / [x]); `none` for a missing bound."""
+    if v is None:
+        return none
+    for _ in range(4):
+        if isinstance(v, (int, float)):
+            return float(v)
+        if hasattr(v, "value"):
+            v = v.value
+            continue
+        if isinstance(v, (list, tuple)):
+            v = v[0]
+            continue
+        break
+    return float(v)
+
+
+def decl_views(B: "Built"):
+    """three views of every variable `Model(...)` declared, in creation order (time, then per module / rectangle x, y, w, h):
+      tree  : ExpressionTree.data (name, lb, ub) + current value       — what `set_gekko` re-creates variables from
+      gkvar : the GKVariable attached to the tree (name, LOWER, UPPER, VALUE)
+    and `gekko`: {name: (LOWER, UPPER, VALUE)} of the GEKKO object the next solve would use (auto-named aux variables listed apart)."""
+    M = B.model
+    trees = [M.time]
+    for m in range(len(M.M)):
+        for i in range(len(M.x[m])):
+            trees += [M.x[m][i], M.y[m][i], M.w[m][i], M.h[m][i]]
+    tree, gkvar = [], []
+    for t in trees:
+        tree.append((t.data["name"], float(t.evaluate()), float(t.data["lb"]), float(t.data["ub"])))
+        g = t.value
+        gkvar.append((str(g.name), _num(g.VALUE), _num(g.LOWER, float("-inf")), _num(g.UPPER, float("inf"))))
+    gek, aux = {}, 0
+    import re
+    for g in M.gekko.gekko._variables:
+        nm = str(g.name)
+        if re.fullmatch(r"(int_)?[pv]\d+", nm):
+            aux += 1
+            continue
+        gek[nm] = (_num(g.VALUE), _num(g.LOWER, float("-inf")), _num(g.UPPER, float("inf")))
+    return tree, gkvar, gek, aux
+
+
+def ser_decl(name, value, lb, ub) -> str:
+    return "%s|%s|%s|%s" % (name, f2hex(value), f2hex(lb), f2hex(ub))
+
+
+def real_bounds(B: "Built"):
+    """[(module, rect, kind, LOWER, UPPER)] from the real GKVariables (the bounds the solver would see)."""
+    M = B.model
+    out = []
+    for m in range(len(M.M)):
+        for i in range(len(M.x[m])):
+            for k, arr in (("x", M.x), ("y", M.y), ("w", M.w), ("h", M.h)):
+                g = arr[m][i].value
+                out.append((m, i, k, _num(g.LOWER, float("-inf")), _num(g.UPPER, float("inf"))))
+    return out
+
+
+def step_eqs(B: "Built"):
+    return [("radius", e) for e in B.model.gekko.constraints.get("radius", [])]
+
+
+def enforce_flags(B: "Built"):
+    return [bool(e.enforce) for e in B.model.gekko.constraints.get("Inter", [])]
+
+
+def rid_view(B: "Built", cfg, perc: float):
+    """assign `cfg`, run `turn_off_rects(perc)` on every macro from an all-enabled state, then `get_constraints`:
+    returns (flags per module, configuration read back, serialised equations).  The enable flags are restored."""
+    M = B.model
+    B.assign(cfg)
+    saved = [list(mac.enable) for mac in M.gekko.macros]
+    try:
+        for mac in M.gekko.macros:
+            mac.enable = [True] * len(mac.enable)
+            mac.turn_off_rects(perc)
+        flags = [list(map(bool, mac.enable)) for mac in M.gekko.macros]
+        eqs = []
+        for mac in M.gekko.macros:
+            eqs += [ser_eq(g, e) for g, e in mac.get_constraints(M.gekko)]
+        back = [[(float(M.x[m][i].evaluate()), float(M.y[m][i].evaluate()), float(M.w[m][i].evaluate()), float(M.h[m][i].evaluate()))
+                 for i in range(len(M.x[m]))] for m in range(len(M.M))]
+        return flags, back, eqs
+    finally:
+        for mac, en in zip(M.gekko.macros, saved):
+            mac.enable = en
 
 
 def build_digest(d: dict) -> list:
